@@ -124,6 +124,7 @@ func c04sNormalized(raw [][2]int) []t.Range {
 type c04sTok struct {
 	K byte // w word, n number, o comparison operator, ( ) , s string literal, x anything else
 	S string
+	Q bool // w only: a quoted identifier (`from`, "from"): never a keyword
 }
 
 func c04sLex(sql string) []c04sTok {
@@ -156,16 +157,16 @@ func c04sLex(sql string) []c04sTok {
 			if j >= len(sql) {
 				j = len(sql) - 1
 			}
-			out = append(out, c04sTok{'s', sql[i : j+1]})
+			out = append(out, c04sTok{K: 's', S: sql[i : j+1]})
 			i = j + 1
 		case c == '`' || c == '"':
 			// quoted identifier
 			j := strings.IndexByte(sql[i+1:], c)
 			if j < 0 {
-				out = append(out, c04sTok{'x', sql[i:]})
+				out = append(out, c04sTok{K: 'x', S: sql[i:]})
 				return out
 			}
-			out = append(out, c04sTok{'w', sql[i+1 : i+1+j]})
+			out = append(out, c04sTok{K: 'w', S: sql[i+1 : i+1+j], Q: true})
 			i += j + 2
 		case c >= '0' && c <= '9':
 			j := i
@@ -177,9 +178,9 @@ func c04sLex(sql string) []c04sTok {
 				for j < len(sql) && isW(sql[j]) {
 					j++
 				}
-				out = append(out, c04sTok{'x', sql[i:j]})
+				out = append(out, c04sTok{K: 'x', S: sql[i:j]})
 			} else {
-				out = append(out, c04sTok{'n', sql[i:j]})
+				out = append(out, c04sTok{K: 'n', S: sql[i:j]})
 			}
 			i = j
 		case isW(c):
@@ -187,27 +188,27 @@ func c04sLex(sql string) []c04sTok {
 			for j < len(sql) && isW(sql[j]) {
 				j++
 			}
-			out = append(out, c04sTok{'w', sql[i:j]})
+			out = append(out, c04sTok{K: 'w', S: sql[i:j]})
 			i = j
 		case c == '(' || c == ')' || c == ',':
-			out = append(out, c04sTok{c, string(c)})
+			out = append(out, c04sTok{K: c, S: string(c)})
 			i++
 		case c == '<' || c == '>' || c == '=' || c == '!':
 			j := i + 1
 			for j < len(sql) && (sql[j] == '<' || sql[j] == '>' || sql[j] == '=') {
 				j++
 			}
-			out = append(out, c04sTok{'o', sql[i:j]})
+			out = append(out, c04sTok{K: 'o', S: sql[i:j]})
 			i = j
 		default:
-			out = append(out, c04sTok{'x', string(c)})
+			out = append(out, c04sTok{K: 'x', S: string(c)})
 			i++
 		}
 	}
 	return out
 }
 
-func (k c04sTok) word(w string) bool { return k.K == 'w' && strings.EqualFold(k.S, w) }
+func (k c04sTok) word(w string) bool { return k.K == 'w' && !k.Q && strings.EqualFold(k.S, w) }
 
 // c04sWhereToks returns the tokens of the (first top-level) WHERE clause, cut at ORDER BY /
 // GROUP BY / LIMIT / RETURNING / FOR.
@@ -460,7 +461,7 @@ func c04sInsertRow(sqlText string) (table string, row map[string]c04sTok, ok boo
 			continue
 		}
 		if v, n, isInt := c04sInt(toks, i); isInt {
-			vals = append(vals, c04sTok{'n', strconv.Itoa(v)})
+			vals = append(vals, c04sTok{K: 'n', S: strconv.Itoa(v)})
 			i += n
 			continue
 		}
